@@ -14,7 +14,9 @@ Inductive case :=
 | CPull (snap : snapshot) (trig seq limit : N) (rows : list row)
 | CClient (before_ : client) (rows : list row) (after : client)
 | CInval (pre s post : N)
-| CSys (ops : list sop) (obs : list (snapshot * list row)).
+| CSys (ops : list sop) (obs : list (snapshot * list row))
+| CSysN (ops : list sop) (obs : list (snapshot * list row))      (* the same in a named collection *)
+| CRecreate (named : bool) (before_ after : hist).               (* channel history of a soft-deleted role / of the role created again *)
 
 Definition pair_eqb (a b : N * N) : bool := (fst a =? fst b) && (snd a =? snd b).
 
@@ -93,6 +95,11 @@ Definition check (c : case) : bool :=
   | CSys ops obs =>
       list_eqb (fun x y => snap_equiv (fst x) (fst y) && list_eqb row_eqb (snd x) (snd y))
                (map (fun o => (o_snap o, o_rows o)) (trace ops)) obs
+  | CSysN ops obs =>
+      list_eqb (fun x y => snap_equiv (fst x) (fst y) && list_eqb row_eqb (snd x) (snd y))
+               (map (fun o => (o_snap o, o_rows o)) (trace_named ops)) obs
+  (* CreateRole over a deleted role keeps its history (step: mkPrinc new_ 0 (p_hist p)); in a named collection it is dropped *)
+  | CRecreate named h h' => if named && named_recreate_drops_history then hist_equiv h' [] else hist_equiv h' h
   | CInval pre s post => (post =? pre) || (post =? p_inval (invalidate s (mkPrinc [] pre [])))
   end.
 
